@@ -17,6 +17,14 @@ def hx(b):
     return b.hex() if b else '-'
 
 
+def time_ns(tok):
+    """A timestamp token of the shim trace (`sec.nsec`, RUN, NOW) as nanoseconds; 0 = set while the process ran."""
+    if tok in ('RUN', 'NOW', ''):
+        return 0
+    sec, _, ns = tok.partition('.')
+    return int(sec) * 1000000000 + int((ns or '0').ljust(9, '0')[:9])
+
+
 class Canon:
     def __init__(self):
         self.map = {0: 0, 1: 1, 2: 2}
@@ -95,11 +103,15 @@ class Canon:
             p = TMPL.sub(b'mdsort-XXXXXXXX', U('path'))
             return 'unlink %s = %s' % (hx(p), self.res(t))
         if n == 'fstatat':
-            return 'fstatat %d %s = %s' % (self.h(a['dirfd']), hx(U('path')), self.res(t))
+            # the value of a successful fstatat is the file's modification time in ns (0 = modified while mdsort ran)
+            return 'fstatat %d %s = %s' % (self.h(a['dirfd']), hx(U('path')), self.res(t, time_ns(a.get('st_mtime', 'RUN'))))
         if n == 'stat':
             return 'stat %s = %s' % (hx(U('path')), self.res(t))
         if n == 'utimensat':
-            return 'utimensat %d %s = %s' % (self.h(a['dirfd']), hx(U('path')), self.res(t))
+            def tm(v):
+                return 'omit' if v == 'OMIT' else str(time_ns(v))
+            return 'utimensat %d %s %s %s = %s' % (self.h(a['dirfd']), hx(U('path')), tm(a.get('atime', 'NOW')), tm(a.get('mtime', 'NOW')),
+                                                   self.res(t))
         if n in ('mkostemp', 'mkstemp'):
             r = self.res(t) if err else 'ok %d' % self.new(int(t['result']))
             return 'mkostemp %s = %s' % (hx(U('template')), r)
@@ -172,8 +184,8 @@ class WorldCheck:
             if kind == 'dir':
                 dirs.add(full)
             elif kind == 'file':
-                files.append((os.path.dirname(full), os.path.basename(full), data))
-        lines = ['%s %s %s' % (hx(d.encode('latin-1')), hx(n.encode('latin-1')), hx(c)) for d, n, c in files]
+                files.append((os.path.dirname(full), os.path.basename(full), data, mt or 0))
+        lines = ['%s %s %s %d' % (hx(d.encode('latin-1')), hx(n.encode('latin-1')), hx(c), mt) for d, n, c, mt in files]
         # directories without files still have to exist in the abstract file system: an empty-name marker
         for d in sorted(dirs):
             lines.append('%s - -' % hx(d.encode('latin-1')))
@@ -200,11 +212,11 @@ def parse_fs(dump):
         for e in es.split(','):
             if not e:
                 continue
-            n, data, dur = e.split(':')
+            n, data, dur, mt = (e.split(':') + ['0'])[:4]
             name = vlib.unhex(n)
             if name == b'':
                 continue
-            ents[name] = (vlib.unhex(data) if data != '?' else None, vlib.unhex(dur) if dur != '?' else None)
+            ents[name] = (vlib.unhex(data) if data != '?' else None, vlib.unhex(dur) if dur != '?' else None, int(mt))
         fs[vlib.unhex(p).decode('latin-1')] = ents
     return fs
 
@@ -243,7 +255,22 @@ def compare(scen, result, answer):
         real = rfs.get(d, {})
         if set(real) != set(ents):
             return 'fs', 'directory %s: model %s, real %s' % (d, sorted(ents), sorted(real))
-        for n, (data, dur) in ents.items():
+        rmt = real_mtimes(scen, result).get(d, {})
+        for n, (data, dur, mt) in ents.items():
             if data is not None and real[n] != data:
                 return 'fs', 'content of %s/%r differs' % (d, n)
+            # modification time: the model carries the ns value of files that existed before the run (0 = set during the run)
+            if mt != 0 and rmt.get(n) != mt:
+                return 'fs', 'modification time of %s/%r: model %d, real %s' % (d, n, mt, rmt.get(n))
+            if mt == 0 and rmt.get(n) is not None and rmt[n] < scen.t0_ns:
+                return 'fs', 'modification time of %s/%r: the model says it was set during the run, real %d is older' % (d, n, rmt[n])
     return 'ok', m.group(5)
+
+
+def real_mtimes(scen, result):
+    mts = {}
+    for rel, (kind, data, mt) in result.final.items():
+        if kind == 'file':
+            full = os.path.join(scen.root, rel)
+            mts.setdefault(os.path.dirname(full), {})[os.path.basename(full).encode('latin-1')] = mt
+    return mts
